@@ -69,6 +69,97 @@ def user_series(inst, inj, poison=(), copies=None):
     return BlockSeries(eval=ev, shape=(), n_infinite=k, name="Huser"), concrete
 
 
+class MatElem:
+    """A user-defined algebra element (a matrix block behind an opaque interface): its
+    product is the third user callback of C11 ("the multiplication of elements")."""
+
+    __slots__ = ("a", "inj")
+
+    def __init__(self, a, inj):
+        self.a = a
+        self.inj = inj
+
+    def __matmul__(self, o):
+        self.inj.hit(("mul", self.a.shape, getattr(o, "a", np.empty(())).shape))
+        if not isinstance(o, MatElem):
+            return NotImplemented
+        return MatElem(self.a @ o.a, self.inj)
+
+    def __add__(self, o):
+        from pymablock.series import zero
+
+        if o is zero:
+            return self
+        if not isinstance(o, MatElem):
+            return NotImplemented
+        return MatElem(self.a + o.a, self.inj)
+
+    __radd__ = __add__
+
+    def __sub__(self, o):
+        from pymablock.series import zero
+
+        if o is zero:
+            return self
+        if not isinstance(o, MatElem):
+            return NotImplemented
+        return MatElem(self.a - o.a, self.inj)
+
+    def __neg__(self):
+        return MatElem(-self.a, self.inj)
+
+    def __truediv__(self, c):
+        return MatElem(self.a / c, self.inj)
+
+    def __mul__(self, c):
+        return MatElem(self.a * c, self.inj)
+
+    __rmul__ = __mul__
+
+    def adjoint(self):
+        return MatElem(self.a.conj().T, self.inj)
+
+
+def unwrap(v):
+    return v.a if isinstance(v, MatElem) else v
+
+
+def algebra_series(inst, inj, poison=(), copies=None):
+    """The Hamiltonian as a lazily defined BlockSeries of opaque algebra elements, already
+    split into blocks: user callbacks = eval of a block term and the element product."""
+    from pymablock.series import BlockSeries, zero
+
+    k = inst["k"]
+    order = hermitian.block_order(inst)
+    nb = len(inst["sizes"])
+    offs = np.concatenate(([0], np.cumsum(inst["sizes"])))
+    idx = [order[offs[b]:offs[b + 1]] for b in range(nb)]
+    terms = {(0,) * k: hermitian.h0_user(inst), **inst["terms"]}
+    concrete = {}
+    for n, m in terms.items():
+        a = hermitian.to_numpy(m, force_complex=inst["vtype"] == "numpy_complex")
+        for i in range(nb):
+            for j in range(nb):
+                blk = np.array(a[np.ix_(idx[i], idx[j])])
+                if n == (0,) * k and i != j:
+                    if np.any(blk):
+                        raise common.MachineryError("instance with block-off-diagonal H0 given to algebra_series")
+                    continue
+                if np.any(blk):
+                    concrete[(i, j, *n)] = blk
+    if copies is not None:
+        copies.update({n: a.copy() for n, a in concrete.items()})
+
+    def ev(*index):
+        inj.hit(("H", index))
+        if tuple(index[2:]) in poison:
+            raise AssertionError(f"poisoned Hamiltonian term {index} was evaluated")
+        blk = concrete.get(tuple(index))
+        return zero if blk is None else MatElem(blk, inj)
+
+    return BlockSeries(eval=ev, shape=(nb, nb), n_infinite=k, name="Huser"), concrete
+
+
 def diag_solver(inst, inj):
     """A harness-supplied solve_sylvester(Y, index): second user callback."""
     from pymablock.series import zero
@@ -84,6 +175,8 @@ def diag_solver(inst, inj):
         if Y is zero:
             return zero
         a, b = eigs[index[0]], eigs[index[1]]
+        if isinstance(Y, MatElem):
+            return MatElem(Y.a / (a.reshape(-1, 1) - b), Y.inj)
         if hasattr(Y, "toarray"):
             Y = Y.toarray()
         return Y / (a.reshape(-1, 1) - b)
@@ -99,18 +192,20 @@ def build(inst, inj, *, custom_solver=False, poison=(), copies=None, shared=None
     elif input_kind == "dict":
         concrete = hermitian.concrete_hamiltonian(inst)
         H = concrete
+    elif input_kind == "algebra":
+        H, concrete = algebra_series(inst, inj, poison=poison, copies=copies)
     else:
         H, concrete = user_series(inst, inj, poison=poison, copies=copies)
     kw = {}
-    if custom_solver:
+    if custom_solver or input_kind == "algebra":
         kw["solve_sylvester"] = diag_solver(inst, inj)
     else:
         kw["fully_diagonalize"] = hermitian.fd_argument(inst)
+    if input_kind != "algebra":
+        kw["subspace_indices"] = list(inst["sub_idx"])
     with warnings.catch_warnings():
         warnings.simplefilter("ignore")
-        outs = pymablock.block_diagonalize(
-            H, subspace_indices=list(inst["sub_idx"]), hermitian=inst.get("hermitian", True), **kw
-        )
+        outs = pymablock.block_diagonalize(H, hermitian=inst.get("hermitian", True), **kw)
     return outs, (H, concrete)
 
 
@@ -151,6 +246,8 @@ def fingerprint(concrete, p):
     for n in sorted(concrete):
         a = concrete[n]
         a = a.toarray() if sparse.issparse(a) else a
+        # algebra input: keys are (i, j, *n) block cells; the Trace_Engine record only
+        # compares fingerprints for equality
         fp.append([list(n), common.red_matrix(a, p)])
     return fp
 
@@ -214,6 +311,7 @@ def run_schedule(inst, schedule, p, truth, sid, *, plan=None, custom_solver=Fals
                 flat = [got]
             vals = []
             for kk, ((o, i, j, n), v) in enumerate(zip(cells, flat)):
+                v = unwrap(v)
                 res, tag = hermitian.block_to_res(v, (sizes[i], sizes[j]), p)
                 want, _ = truth[(o, i, j, n)]
                 vals.append(dict(ses.cell(S, (i, j, *n)), tag=tag, v=res, want=want))
